@@ -174,7 +174,16 @@ fn execute(exe: &str, dir: &str, id: u64, text: &str, route: &Route, opts: &[Str
         args.push("-o".into());
         args.push(outpath.clone());
     }
-    let run = cli::run_cli(exe, &args, stdin, Duration::from_secs(60));
+    let mut run = cli::run_cli(exe, &args, stdin, Duration::from_secs(60));
+    if run.timed_out {
+        // once more with four times the time before it is called a hang (a loaded machine must not produce an alarm)
+        if let Some(old) = &prefill {
+            std::fs::write(&outpath, old).unwrap();
+        } else {
+            let _ = std::fs::remove_file(&outpath);
+        }
+        run = cli::run_cli(exe, &args, stdin, Duration::from_secs(240));
+    }
     let raw = if route.to_file { std::fs::read_to_string(&outpath).unwrap_or_default() } else { run.stdout.clone() };
     // "something was written to the destination": a file appeared, or the older result was replaced by other content
     let outfile = match &prefill {
